@@ -1536,7 +1536,20 @@ namespace adept {
 	}
 	dimension_ = dim;
 	offset_ = Engine::pack_offset(dim);
-	storage_ = new Storage<Type>(Engine::data_size(dimension_,offset_), IsActive);
+	try {
+	  storage_ = new Storage<Type>(Engine::data_size(dimension_,offset_), IsActive);
+	}
+	catch (...) {
+	  // The old data have been released and the new ones could
+	  // not be allocated (std::bad_alloc): leave the matrix empty
+	  // rather than with its new dimension and a pointer to the
+	  // data it no longer holds
+	  data_ = 0;
+	  dimension_ = 0;
+	  offset_ = 0;
+	  internal::GradientIndex<IsActive>::clear();
+	  throw;
+	}
 	data_ = storage_->data();
 	internal::GradientIndex<IsActive>::set(data_, storage_);
       }
